@@ -127,3 +127,23 @@ def expected_rows(case, which='expM'):
     rows = case[which]
     keep = [r for r in range(len(rows)) if r * cfg['store'] >= cfg['cut']]
     return dict(index=[float(r * cfg['store']) for r in keep], rows=[[float(v) for v in rows[r]] for r in keep])
+
+
+def compile_model(m, scale=1.0, vec=True, inputs=None, precision='float64', backend='default', form='nodes', **kw):
+    """get_run_func on the model with pairwise distinct initial values 101, 102, ... so that the position of every
+    node's state variable in y is recovered from the returned initial state alone (public contract only).
+    Returns (func, args, arg_names, pos: node -> index in y)."""
+    import numpy as np
+    warnings.filterwarnings('ignore')
+    m2 = dict(m, x0=[100 + i for i in range(1, m['n'] + 1)])
+    circ = build(m2, scale) if form == 'nodes' else build_pop(m2, scale)
+    func, args, names, svm = circ.get_run_func('vf', scale, inputs=inputs, vectorize=vec, verbose=False, clear=False,
+                                               in_place=False, float_precision=precision, backend=backend, **kw)
+    y0 = np.asarray(args[1], dtype='float64').ravel()
+    pos = {}
+    for i in range(1, m['n'] + 1):
+        hits = [int(k) for k in np.flatnonzero(y0 == 100 + i)]
+        if len(hits) != 1:
+            raise AssertionError(f'initial value of node {i} found at positions {hits} of y0={y0.tolist()}')
+        pos[i] = hits[0]
+    return func, args, names, pos
